@@ -241,6 +241,8 @@ def described_position_probe(run, rng):
                 w = {"source": src, "raw": b2j(rec), "stored_offset": stored, "computed_offset": 2 + n, "variant": tag}
                 for cls, raw, base, get in ((Rec, rec, 0, lambda p: p), (Box, b"PAD" + rec + rec, 3, lambda p: p.recs[0])):
                     r = harness.lib_unpack(cls, raw)
+                    if r.status == "timeout":
+                        continue
                     if r.status != "ok":
                         run.violation("a record whose stored payload offset differs from the computed one does not parse: %s" % str(r.err)[:120],
                                       dict(w, nested=base > 0), None)
@@ -254,6 +256,8 @@ def described_position_probe(run, rng):
                                       "(relative to the start of its packet)", dict(w, nested=base > 0, got=b2j(p.payload), want=b2j(payload)), None)
                         return
                     pr = harness.lib_pack(r.pkt)
+                    if pr.status == "timeout":
+                        continue
                     if pr.status != "ok":
                         run.violation("pack() of such a record failed: %s" % str(pr.err)[:120], dict(w, nested=base > 0), None)
                         return
